@@ -451,6 +451,22 @@ def cross_check():
     return missing
 
 
+PERM_FILE = "common/modules/permissions_module/src/permissions.rs"
+
+
+def permission_bits():
+    """values of the `Permissions` bitflags (OWNER / ADMIN / PAUSE)"""
+    src = strip_comments(open(os.path.join(REPO, PERM_FILE)).read())
+    m = re.search(r'bitflags!\s*\{.*?struct\s+Permissions\s*:\s*u32\s*\{(.*?)\}', src, re.S)
+    if not m:
+        raise InventoryError("Permissions bitflags not found")
+    vals = dict((k, int(v)) for k, v in re.findall(r'const\s+([A-Z_]+)\s*=\s*(\d+)\s*;', m.group(1)))
+    for k in ("OWNER", "ADMIN", "PAUSE"):
+        if k not in vals:
+            raise InventoryError(f"Permissions::{k} not found")
+    return vals
+
+
 def generate():
     inv = inventory()
     miss = cross_check()
@@ -481,6 +497,10 @@ def generate():
     L.append("")
     L.append(f"Definition inventory_size : nat := {len(rows)}%nat.")
     L.append("")
+    bits = permission_bits()
+    for k in ("OWNER", "ADMIN", "PAUSE"):
+        L.append(f"Definition PERM_{k} : Z := {bits[k]}%Z.  (* {PERM_FILE} bitflags Permissions::{k} *)")
+    L.append("")
     return "\n".join(L)
 
 
@@ -488,13 +508,29 @@ def write():
     text = generate()
     os.makedirs(os.path.dirname(OUT), exist_ok=True)
     old = open(OUT).read() if os.path.exists(OUT) else None
-    if old != text:
+    nocom = lambda t: re.sub(r"\(\*.*?\*\)", "", t, flags=re.S) if t is not None else None
+    if nocom(old) != nocom(text):          # comments (file:line, guard names) are informative only
         if REPO != "/repo":
             raise InventoryError("endpoint inventory of the scratch tree differs from Gen/Endpoints.v "
                                  "(shared file not overwritten in VERIF_REPO mode)")
         open(OUT, "w").write(text)
+        ensure_compiled()
         return True
+    ensure_compiled()
     return False
+
+
+def ensure_compiled():
+    """Gen/Endpoints.vo must exist before `make Props/C19.vo` runs (the generated file may not be
+    listed in _CoqProject, in which case make has no rule for it)."""
+    import subprocess
+    vo = OUT[:-2] + ".vo"
+    if os.path.exists(vo) and os.path.getmtime(vo) >= os.path.getmtime(OUT):
+        return
+    coqdir = os.path.join(ROOT, "coq")
+    p = subprocess.run(["timeout", "300", "coqc", "-Q", coqdir, "MX", OUT], capture_output=True, text=True)
+    if p.returncode != 0:
+        raise InventoryError("coqc Gen/Endpoints.v failed: " + (p.stdout + p.stderr)[-500:])
 
 
 if __name__ == "__main__":
